@@ -1,6 +1,7 @@
 // ===================== spec: ranges as unions of intervals =====================
 pub open spec fn swf(s: Seq<BoundSet>) -> bool { forall|i: int| 0 <= i < s.len() ==> bs_wf(#[trigger] s[i]) }
 pub open spec fn rwf(r: Range) -> bool { swf(r.0@) }
+pub open spec fn rsmall(r: Range) -> bool { ssmall(r.0@) }
 /// some interval among the first n contains / is satisfied by k
 pub open spec fn any_within(s: Seq<BoundSet>, n: int, k: VKey) -> bool { exists|i: int| 0 <= i < n && i < s.len() && within(#[trigger] s[i], k) }
 pub open spec fn any_sat(s: Seq<BoundSet>, n: int, k: VKey) -> bool { exists|i: int| 0 <= i < n && i < s.len() && sat(#[trigger] s[i], k) }
@@ -48,6 +49,11 @@ pub broadcast proof fn lemma_any_within_concat(a: Seq<BoundSet>, b: Seq<BoundSet
     if any_within(a, a.len() as int, k) { let i = choose|i: int| 0 <= i < a.len() && i < a.len() && within(#[trigger] a[i], k); assert(t[i] == a[i]); }
     if any_within(b, b.len() as int, k) { let i = choose|i: int| 0 <= i < b.len() && i < b.len() && within(#[trigger] b[i], k); assert(t[i + a.len()] == b[i]); }
 }
+pub proof fn lemma_ssmall_concat(a: Seq<BoundSet>, b: Seq<BoundSet>)
+    requires ssmall(a), ssmall(b) ensures ssmall(a + b)
+{
+    assert forall|i: int| 0 <= i < (a + b).len() implies bs_small(#[trigger] (a + b)[i]) by { if i < a.len() { assert((a + b)[i] == a[i]); } else { assert((a + b)[i] == b[i - a.len()]); } }
+}
 pub proof fn lemma_swf_concat(a: Seq<BoundSet>, b: Seq<BoundSet>)
     requires swf(a), swf(b) ensures swf(a + b)
 {
@@ -62,6 +68,7 @@ pub open spec fn bdiff_post(a: BoundSet, b: BoundSet, r: Option<Vec<BoundSet>>) 
     &&& (r is None) <==> (overlap && !left && !right)
     &&& r matches Some(vs) ==> {
         &&& swf(vs@)
+        &&& (bs_small(a) && bs_small(b)) ==> ssmall(vs@)
         &&& !overlap ==> vs@.len() == 1 && vs@[0] == a
         &&& overlap && left && right ==> vs@.len() == 2 && cut_of(*vs@[0].lower) == cl && cut_of(*vs@[0].upper) == ol && cut_of(*vs@[1].lower) == ou && cut_of(*vs@[1].upper) == cu
         &&& overlap && left && !right ==> vs@.len() == 1 && cut_of(*vs@[0].lower) == cl && cut_of(*vs@[0].upper) == ol
@@ -179,6 +186,7 @@ pub open spec fn rinter_post(a: Range, b: Range, r: Option<Range>) -> bool {
     &&& (r is Some) <==> roverlap(a, b)
     &&& r matches Some(x) ==> rwf(x) && x.0@.len() > 0 && forall|v: VKey| #![trigger rwithin(x, v)] rwithin(x, v) <==> rwithin(a, v) && rwithin(b, v)
     &&& r is None ==> forall|v: VKey| #![trigger rwithin(a, v), rwithin(b, v)] !(rwithin(a, v) && rwithin(b, v))
+    &&& (rsmall(a) && rsmall(b)) ==> (r matches Some(x) ==> rsmall(x))
     // prerelease clauses: the result is satisfied by v exactly when v lies within an alternative of each side and one of the two opts it in
     &&& r matches Some(x) ==> forall|v: VKey| #![trigger rsat(x, v)] rsat(x, v) <==> any_pair_sat(a.0@, a.0@.len() as int, b.0@, 0, v)
 }
@@ -186,6 +194,7 @@ pub open spec fn rinter_post(a: Range, b: Range, r: Option<Range>) -> bool {
 pub open spec fn rdiff_post(a: Range, b: Range, r: Option<Range>) -> bool {
     &&& r matches Some(x) ==> rwf(x) && x.0@.len() > 0 && forall|v: VKey| #![trigger rwithin(x, v)] rwithin(x, v) <==> rwithin(a, v) && !rwithin(b, v)
     &&& r is None ==> forall|v: VKey| #![trigger rwithin(a, v)] rwithin(a, v) ==> rwithin(b, v)
+    &&& (rsmall(a) && rsmall(b)) ==> (r matches Some(x) ==> rsmall(x))
     // single alternatives on both sides: `None` exactly when the cuts say nothing remains (C10 link)
     &&& a.0@.len() == 1 && b.0@.len() == 1 ==> ((r is None) <==> bdiff_none(a.0@[0], b.0@[0]))
 }
